@@ -10,6 +10,7 @@ package main
 // Lean connection-handler model (`conn|geo|count|tids|events|passes`).
 
 import (
+	"sync/atomic"
 	"bytes"
 	"context"
 	"encoding/hex"
@@ -714,9 +715,12 @@ func (w *c34World) populate() ([]*c34Reg, error) {
 		}
 	}
 	for _, tt := range []pb.TransportType{pb.TransportType_Min, pb.TransportType_Obfs4, pb.TransportType_Prefix} {
-		if _, err := w.addReg(tt, int32(prefix.TLSClientHello), 0, true, c34PhV6, true, w.newSecret()); err != nil {
+		r6, err := w.addReg(tt, int32(prefix.TLSClientHello), 0, true, c34PhV6, true, w.newSecret())
+		if err != nil {
 			return nil, err
 		}
+		// clients on an IPv6 phantom (the handler keeps separate per-family statistics and code paths)
+		clients = append(clients, r6)
 	}
 	return clients, nil
 }
@@ -856,6 +860,21 @@ func (w *c34World) start(conn *c34Conn, phantom, geoMode string) (*c34Run, chan 
 		w.cm.handleNewTCPConn(w.rm, conn, ip)
 	}()
 	return run, done
+}
+
+// c34Peer cycles the peer (client) address through the forms a TCP peer address takes: a 4-byte
+// IPv4 address, an IPv6 address, and an IPv4 address in 16-byte form. The handler's behaviour must
+// not depend on the peer's address family.
+var c34PeerN atomic.Int64
+
+func c34Peer(port int) *net.TCPAddr {
+	switch c34PeerN.Add(1) % 3 {
+	case 0:
+		return &net.TCPAddr{IP: net.IPv4(203, 0, 113, 99).To4(), Port: port}
+	case 1:
+		return &net.TCPAddr{IP: net.ParseIP("2001:db8:85a3::8a2e:370:7334"), Port: port}
+	}
+	return &net.TCPAddr{IP: net.IPv4(203, 0, 113, 98), Port: port}
 }
 
 func c34GeoField(mode string, remote net.Addr) string {
